@@ -17,24 +17,22 @@ ENGINE = "c13_wire"
 
 def streams_to_script(i, ops):
     """Behaviour of Streams.tla -> wire script on one inbound connection; every fetch targets a fresh
-    repository so that it opens a stream."""
+    repository so that it opens a stream; `wdone g` finishes the g-th task the worker pool received."""
     out = [["connect", 1, "in"]]
-    nfetch = 0          # global task counter (gids)
-    conn_tasks = []     # gids opened on the current connection, in order
+    nfetch = 0
     for op in ops:
         n = op[0]
         if n == "fetch":
             nfetch += 1
-            conn_tasks.append(nfetch)
             out.append(["fetch", nfetch, 1])
         elif n == "ctrl":
             out.append(["ctrl", 1, op[1], "ours" if op[2] == "us" else "theirs", op[3]])
         elif n == "done":
-            if op[1] <= len(conn_tasks):
-                out.append(["done", conn_tasks[op[1] - 1], "ok"])
-        elif n == "reconnect":
-            out += [["disconnect", 1], ["connect", 1, "in"]]
-            conn_tasks = []
+            out.append(["wdone", op[1]])
+        elif n == "disconnect":
+            out.append(["disconnect", 1])
+        elif n == "connect":
+            out.append(["connect", 1, "in"])
     return {"run": f"st{i}", "peers": 1, "repos": 8, "capacity": 8, "ops": out}
 
 
@@ -76,7 +74,10 @@ def random_script(rng, i, nops):
         elif x < 0.84:
             ops.append(["git", rng.choice(sorted(conn)), rng.choice(classes), rng.randint(0, 3), rng.choice([0, 1, 8, 2000])])
         elif x < 0.90:
-            ops.append(["gossip", rng.choice(sorted(conn)), rng.choice(["subscribe", "ping", "pong", "node"]), rng.choice([0, 1, 8192, 60000])])
+            if rng.random() < 0.35:
+                ops.append(["gossip", rng.choice(sorted(conn)), "node", rng.choice(DNS_NAMES)])
+            else:
+                ops.append(["gossip", rng.choice(sorted(conn)), rng.choice(["subscribe", "ping", "pong", "node"]), rng.choice([0, 1, 8192, 60000])])
         elif x < 0.95:
             # raw bytes: a mutated frame header or plain garbage (the peer is disconnected for it)
             y = rng.random()
@@ -92,8 +93,16 @@ def random_script(rng, i, nops):
     return {"run": f"wr{i}", "peers": npeers, "repos": nrepos, "capacity": rng.choice([1, 1, 2]), "rng": rng.randint(1, 1000), "ops": ops}
 
 
+DNS_NAMES = ["x.onion", "", "a:b", "1.2.3.4", "::1", "[::1]", "seed.example.com", ".onion", "a" * 255, "\u00e9.example", "a b", "x.onion:1",
+             "vww6ybal4bd7szmgncyruucpgfkqahzddi37ktceo3ah7ngmcopnpyyd.onion", "vww6ybal4bd7szmgncyruucpgfkqahzddi37ktceo3ah7ngmcopnpyyx.onion"]
+
+
 def scripted():
     return [
+        # a DNS-typed address whose text form does not read back as an address (".onion" names that are not onion
+        # addresses), then the places that load the peer's addresses again: the sync task looking for seeds
+        {"run": "w-dns-onion-address", "peers": 2, "repos": 2, "capacity": 1, "ops": [["connect", 1, "in"], ["gossip", 1, "node", "x.onion"], ["annfetch", 1, 1],
+         ["idle"], ["done", 1, "ok"], ["idle"], ["idle"], ["connect", 2, "in"], ["fetch", 1, 2], ["idle"]]},
         {"run": "w-stream-collision", "peers": 1, "repos": 2, "capacity": 2, "ops": [["connect", 1, "in"], ["ctrl", 1, "open", "theirs", 1],
          ["ctrl", 1, "open", "ours-next", 0], ["fetch", 1, 1], ["ctrl", 1, "open", "ours-next", 0], ["ctrl", 1, "close", "ours", 1], ["fetch", 2, 1],
          ["done", 1, "ok"], ["done", 2, "ok"], ["idle"]]},
@@ -110,16 +119,23 @@ def run_wire(ctx, thorough, nrand=None):
     """Runs the wire-level scenarios; returns (cases, scripts_by_run, where, stats): TLC CASE records of
     TraceFetchSched, the scripts, record index -> run id, and counts."""
     ctx.build(ENGINE)
-    res = ctx.tlc("MCStreams", "MCStreams.cfg", workers=2, timeout=600, coverage=True, label="stream multiplexing design model: NoCrash, OurIdsAreOurs")
+    res = ctx.tlc("MCStreams", "MCStreams_t.cfg" if thorough else "MCStreams.cfg", workers=4, timeout=1800, coverage=True,
+                  label="stream multiplexing design model: NoCrash, OurIdsAreOurs, OpenHasTask, NoStolenStream (deviations disabled)")
     ctx.tlc_ok(res, "MCStreams")
     if res.violated:
         ctx.violation(f"model:{res.violated}", "the stream design model violates the invariant", {"tlc": res.error_trace[:80]})
         return [], {}, {}, {}
-    dev = ctx.tlc("MCStreams", "MCStreams_dev.cfg", workers=2, timeout=600, coverage=False, count=False,
-                  label="sanity: deviation remote-opens-any must violate NoCrash")
-    if dev.violated != "NoCrash":
-        raise vlib.ToolError("sanity run: deviation remote-opens-any was not rejected by TLC")
-    scripts = scripted() + [streams_to_script(i, c["ops"]) for i, c in enumerate(res.cases) if c.get("ops")]
+    ctx.require_coverage(res, ["OurOpen", "Disconnect", "Connect", "RemoteOpen", "RemoteClose", "RemoteEof", "Done"])
+    for cfgd, name, inv in (("MCStreams_dev.cfg", "remote-opens-any", "NoCrash"), ("MCStreams_dev2.cfg", "late-closes-new", "NoStolenStream")):
+        dev = ctx.tlc("MCStreams", cfgd, workers=2, timeout=600, coverage=False, count=False,
+                      label=f"sanity: deviation {name} must violate {inv}")
+        if dev.violated != inv:
+            raise vlib.ToolError(f"sanity run: deviation {name} was not rejected by TLC")
+    behaviours = [c["ops"] for c in res.cases if c.get("ops")]
+    limit = 6000 if thorough else 1200
+    if len(behaviours) > limit:
+        behaviours = random.Random(ctx.seed * 7919 + 5).sample(behaviours, limit)
+    scripts = scripted() + [streams_to_script(i, b) for i, b in enumerate(behaviours)]
     rng = random.Random(ctx.seed * 15485863 + 11)
     nrand = nrand if nrand is not None else (2500 if thorough else 400)
     scripts += [random_script(rng, i, rng.randint(8, 50)) for i in range(nrand)]
@@ -160,12 +176,60 @@ def run_wire(ctx, thorough, nrand=None):
     ok, info, tres = ctx.validate("TraceFetchSched", "TraceFetchSched.cfg", merged, timeout=3000, heap="8g", label="wire-level trace validation")
     if not ok:
         raise vlib.ToolError(f"trace validation did not consume the whole wire log: {info}")
-    stats = {"wire_runs": len(scripts), "wire_steps": steps, "wire_fetches": fetches, "wire_frame_inputs": ctrl,
-             "stream_model_behaviours": len(res.cases)}
+    conformance = stream_conformance(ctx, [ep for ep, _ in procs])
+    stats = {"stream_model_conformance": conformance, "wire_runs": len(scripts), "wire_steps": steps, "wire_fetches": fetches, "wire_frame_inputs": ctrl,
+             "stream_model_behaviours": len(behaviours)}
     ctx.cov["traces_validated_against_impl"] += len(scripts)
     ctx.cov["evaluations"] += steps
     ctx.cov["samples"] += [scripts[len(scripted())], scripts[-1]]
     return tres.cases, {s["run"]: s for s in scripts}, where, stats
+
+
+def stream_conformance(ctx, event_files):
+    """Strict conformance of Streams.tla (informational: drift, not a violation): the executions of the model's
+    behaviours must be behaviours of its ACTIONS with the observed stream bookkeeping, written control frames
+    and crash flag (spec/TraceStreamsOp.tla, Dev = the code as it is)."""
+    ep = os.path.join(ctx.work, "stevents.ndjson")
+    nm, keep = 0, False
+    with open(ep, "w") as f:
+        for path in event_files:
+            for line in open(path):
+                if line.startswith('{"ev":"init"'):
+                    keep = str(json.loads(line)["run"]).startswith("st")
+                    nm += 1 if keep else 0
+                if keep:
+                    f.write(line)
+    try:
+        okm, infom, _ = ctx.validate("TraceStreamsOp", "TraceStreamsOp.cfg", ep, timeout=3000, heap="8g", label="strict stream-model conformance (informational)")
+    except vlib.ToolError as e:
+        return {"behaviours": nm, "accepted": None, "error": str(e)[:300]}
+    out = {"behaviours": nm, "accepted": okm, "rejected": infom.get("rejected")}
+    if not okm:
+        vlib.log(f"MODEL-DRIFT (not a violation): the real Wire left Streams.tla's actions: {infom.get('rejected')}")
+        return out
+    # binding self-test: a log with one registered stream dropped / one written control frame dropped must be rejected
+    lines = open(ep).read().splitlines()
+    for kind in ("drop-stream", "drop-frame"):
+        done, outl = False, []
+        for ln in lines:
+            e = json.loads(ln)
+            if not done and e["ev"] == "step":
+                if kind == "drop-stream" and e["streams"] and e["streams"][0][3]:
+                    e["streams"][0][3] = e["streams"][0][3][:-1]
+                    done = True
+                elif kind == "drop-frame" and e["sent_ctrl"]:
+                    e["sent_ctrl"], done = e["sent_ctrl"][:-1], True
+            outl.append(json.dumps(e, separators=(",", ":")))
+        if not done:
+            raise vlib.ToolError(f"binding self-test: nothing to corrupt ({kind})")
+        cp = os.path.join(ctx.work, f"selftest-{kind}.ndjson")
+        with open(cp, "w") as f:
+            f.write("\n".join(outl) + "\n")
+        okc, _, _ = ctx.validate("TraceStreamsOp", "TraceStreamsOp.cfg", cp, timeout=3000, heap="8g", label=f"binding self-test: {kind}")
+        if okc:
+            raise vlib.ToolError(f"binding self-test failed: corrupted log ({kind}) was accepted by TraceStreamsOp")
+    out["selftest_corrupted_logs_rejected"] = 2
+    return out
 
 
 def c13_part(ctx):
